@@ -226,8 +226,9 @@ func genEncRoundTrip(ctx *Ctx, emit func(Case)) {
 		lens = append(lens, smallLen(r))
 	}
 	if ctx.Quick {
-		lens = append(lens, mib, mib, mib+1, mib+1)
+		lens = append(lens, mib, mib, mib+1, mib+1, mib+50, mib+50)
 	} else {
+		lens = append(lens, mib+50, mib+50, mib+50, mib+50)
 		for _, v := range []int{1, 2} {
 			_ = v
 			lens = append(lens, boundaryLens...)
@@ -255,6 +256,17 @@ func genEncRoundTrip(ctx *Ctx, emit func(Case)) {
 		}
 		emit(Case{Stream: "enc.seal", Line: line, GoOut: out, Branch: fmt.Sprintf("v%d/%s/anon=%v/recips=%s", c.v.Major, sizeClass(n), c.sender == nil, pattern),
 			Sample: map[string]interface{}{"op": "Seal", "version": c.v.Major, "plaintext_len": n, "recipients": pattern, "anonymous": c.sender == nil}})
+		if how := writeSplit(r, n); how != "" {
+			l2 := line + how
+			o2 := goExec(l2)
+			emit(Case{Stream: "enc.seal.stream", Line: l2, GoOut: o2, Branch: fmt.Sprintf("v%d/%s/%s", c.v.Major, sizeClass(n), howClass(how)),
+				Direct: func() string {
+					if o2 != out {
+						return fmt.Sprintf("streaming and all-at-once encryption disagree: version=%d plaintext_len=%d writes%s: stream %s vs one-shot %s", c.v.Major, n, how, trunc(o2, 100), trunc(out, 100))
+					}
+					return ""
+				}})
+		}
 		msg, ok := okBytes(out)
 		if !ok {
 			continue
